@@ -161,6 +161,26 @@ def _constant_like(e):
     return False
 
 
+def _rank(e):
+    """how 'constant' an operand is: the operands of a symmetric comparison are ordered computed < variable < type /
+    class < constant (then by text), which is how the repository writes them almost everywhere."""
+    if _constant_like(e):
+        return 4
+    if isinstance(e, ast.Name) and (e.id[:1].isupper() or e.id in ('int', 'str', 'bool', 'float', 'list', 'dict', 'set',
+                                                                    'tuple', 'bytes')):
+        return 3
+    if isinstance(e, ast.Attribute) and e.attr[:1].isupper():
+        return 3
+    if isinstance(e, ast.Call) and isinstance(e.func, ast.Name) and e.func.id in ('set', 'list', 'dict', 'tuple') \
+            and not e.args:
+        return 3
+    if isinstance(e, (ast.Name, ast.Attribute)):
+        return 2
+    if isinstance(e, ast.Subscript):
+        return 1
+    return 0
+
+
 _MIRROR = {ast.Lt: ast.Gt, ast.Gt: ast.Lt, ast.LtE: ast.GtE, ast.GtE: ast.LtE, ast.Eq: ast.Eq, ast.NotEq: ast.NotEq}
 
 
@@ -179,6 +199,11 @@ def canonical(test):
         l, op, r = e.left, e.ops[0], e.comparators[0]
         if _constant_like(l) and not _constant_like(r) and type(op) in _MIRROR:
             l, r, op = r, l, _MIRROR[type(op)]()
+            e = ast.Compare(left=l, ops=[op], comparators=[r])
+        # symmetric operators: one operand order (constants on the right - above; otherwise by text)
+        if isinstance(op, (ast.Eq, ast.NotEq, ast.Is, ast.IsNot)) and \
+                (_rank(l), ast.unparse(l)) > (_rank(r), ast.unparse(r)):
+            l, r = r, l
             e = ast.Compare(left=l, ops=[op], comparators=[r])
         # len(x) against 0 / 1
         if isinstance(l, ast.Call) and isinstance(l.func, ast.Name) and l.func.id == 'len' and len(l.args) == 1 and \
@@ -220,6 +245,45 @@ def canonical(test):
         if changed:
             return ast.BoolOp(op=e.op, values=vals), False
     return e, False
+
+
+_CF = {}
+
+
+def cf(text, pol=True):
+    """(text, polarity) of an expected fact in the canonical spelling used by the fact maps."""
+    k = (text, pol)
+    if k not in _CF:
+        try:
+            c, flip = canonical(ast.parse(text, mode='eval').body)
+            _CF[k] = (ast.unparse(c), pol != flip)
+        except SyntaxError:
+            _CF[k] = k
+    return _CF[k]
+
+
+def ctext(e):
+    """text of an expression with every condition inside it in canonical spelling (see canonical())."""
+    import copy
+
+    class T(ast.NodeTransformer):
+        def visit_Compare(self, n):
+            self.generic_visit(n)
+            c, flip = canonical(n)
+            return ast.UnaryOp(op=ast.Not(), operand=c) if flip else c
+
+        def visit_BoolOp(self, n):
+            self.generic_visit(n)
+            c, flip = canonical(n)
+            return ast.UnaryOp(op=ast.Not(), operand=c) if flip else c
+
+        def visit_Call(self, n):
+            self.generic_visit(n)
+            c, flip = canonical(n)
+            return ast.UnaryOp(op=ast.Not(), operand=c) if flip else c
+    if isinstance(e, str):
+        e = ast.parse(e, mode='eval').body
+    return ast.unparse(ast.fix_missing_locations(T().visit(copy.deepcopy(e))))
 
 
 def atoms(test, pol, norm=None):
@@ -294,6 +358,8 @@ class FactMap:
         return out
 
     def has(self, node, text, pol=True):
+        """is (text, pol) a fact at node? The expected text may be written in any equivalent spelling."""
+        text, pol = cf(text, pol)
         return any(f[0] == text and f[1] == pol for f in self.at(node))
 
     def _expr(self, e, facts, hs, st):
@@ -641,6 +707,33 @@ def statements(fn_node):
             for h in getattr(st, 'handlers', []):
                 walk(h.body)
     walk(fn_node.body)
+    return out
+
+
+def effects_outside(unit, text, pol=True):
+    """the effectful simple statements of the function that are NOT dominated by the fact (text, pol): calls other than
+    logging, stores to attributes / subscripts, returns of a value. Whatever the way the guard is written (enclosing
+    if, guard clause with early return, hoisted condition), the answer is the same."""
+    fm = factmap(unit)
+    text, pol = cf(text, pol)
+    out = []
+    for st in statements(unit.node):
+        if isinstance(st, (ast.If, ast.For, ast.While, ast.Try, ast.With, ast.FunctionDef, ast.ClassDef, ast.Pass,
+                           ast.AsyncFunctionDef, ast.Import, ast.ImportFrom, ast.Global, ast.Nonlocal)):
+            continue
+        if isinstance(st, ast.Expr) and isinstance(st.value, ast.Constant):
+            continue
+        if isinstance(st, ast.Return) and st.value is None:
+            continue
+        calls = [c for c in ast.walk(st) if isinstance(c, ast.Call)]
+        if isinstance(st, ast.Expr) and calls and all('logger' in ast.unparse(c.func).split('.') or c is not st.value
+                                                      for c in calls) and 'logger' in ast.unparse(st.value.func).split('.'):
+            continue
+        stores = [t for t in ast.walk(st) if isinstance(t, (ast.Attribute, ast.Subscript)) and isinstance(t.ctx, ast.Store)]
+        if not calls and not stores and not isinstance(st, (ast.Return, ast.Raise, ast.Delete)):
+            continue        # a local computed from locals: no effect
+        if not any(f[0] == text and f[1] == pol for f in fm.at(st)):
+            out.append(st)
     return out
 
 
